@@ -325,6 +325,10 @@ ExecOne(st, a, evt, eng, proc) ==
                  IN Enqueue(st1, PlainEv(a.arg[1]), eng)
             [] a.kind = "assign" ->
                  [st0 EXCEPT !.ctx = [@ EXCEPT ![a.arg[1]] = a.arg[2]]]
+            \* a coroutine action that sleeps arg[1] virtual ms: the async consumer task is suspended
+            \* inside this macrostep for that long (generators put it last in a targetless transition)
+            [] a.kind = "slow" ->
+                 [Log(st0, L("act", a.name, evt, {})) EXCEPT !.slow = a.arg[1]]
             [] OTHER -> st0
 
 \* kind "choose": arg = sequence of branches [guard, acts]; the first branch whose guard passes
@@ -615,7 +619,7 @@ AsyncLoop(st, gv, fuel) ==
                    st4 == IF Failed(st3)
                           THEN Log([st3 EXCEPT !.err = NoErr], L("loop_error", st3.err[1], "", {}))
                           ELSE IF st3.rd = before THEN [st3 EXCEPT !.rd = 0] ELSE st3
-               IN AsyncLoop(st4, gv, fuel - 1)
+               IN IF st4.slow > 0 THEN st4 ELSE AsyncLoop(st4, gv, fuel - 1)
 
 --------------------------------------------------------------------------
 (* Public steps, as functions from a quiescent state                        *)
@@ -624,7 +628,7 @@ AllTrue == [g \in D.guards |-> "T"]
 
 Fresh(hist0, ctx0) == [config |-> {}, hist |-> hist0, status |-> "uninitialized", ctx |-> ctx0,
                        queue |-> <<>>, out |-> <<>>, err |-> NoErr, rd |-> 0, output |-> NONE, gv |-> <<>>,
-                       faults |-> {}, halt |-> FALSE]
+                       faults |-> {}, halt |-> FALSE, slow |-> 0]
 
 StartStep(st0, gv, eng) ==
   LET st == [st0 EXCEPT !.gv = gv] IN
